@@ -146,6 +146,9 @@ func (p *PTN) InitialPosition() (*tak.Position, error) {
 	if e != nil {
 		return nil, fmt.Errorf("bad size: %s", sizeTag)
 	}
+	if size < 3 || size > 8 {
+		return nil, fmt.Errorf("bad size: %s", sizeTag)
+	}
 	tps := p.FindTag("TPS")
 	var out *tak.Position
 	if tps == "" {
@@ -227,6 +230,9 @@ func readMoves(r *bufio.Reader, ptn *PTN) error {
 		common := opCommon{tok}
 		switch {
 		case tok[0] == '{':
+			if len(tok) < 2 || tok[len(tok)-1] != '}' {
+				return fmt.Errorf("unterminated comment: %s", tok)
+			}
 			ptn.Ops = append(ptn.Ops, &Comment{common, tok[1 : len(tok)-1]})
 		case tok[len(tok)-1] == '.':
 			n, e := strconv.Atoi(tok[:len(tok)-1])
